@@ -101,6 +101,16 @@ def verify_function(world, reg, c, prop, timeout_ms=20000, mutate=None):
     old = it.snapshot({**{g: v for g, v in it.ghost.items() if g in c.ghost}, **env})
     it.entry_old = old
     it.ghost_at_entry = dict(it.ghost)
+    if c.at_release:
+      locks = {it.spec_val(expr, env): (expr, clauses) for expr, clauses in c.at_release.items()}
+
+      def on_release(itp, lk, _locks=locks, _env=env, _old=old):
+        if lk in _locks:
+          expr, clauses = _locks[lk]
+          for k_, cl in enumerate(clauses):
+            itp.oblige(f'{prop}/{c.key}/at-release[{expr}]#{k_}', itp.spec(cl, _env, _old), 'publication',
+                       {'text': f'whenever {expr} is released: {cl}'})
+      it.release_hooks.append(on_release)
     outcome, val = None, None
     try:
       args = [env[a.arg] for a in node.args.posonlyargs + node.args.args]
